@@ -236,7 +236,14 @@ func limitedParse(api int, in []byte, n uint64, useOpt bool, variant int, entryS
 					e0 += verifsim.SiteHits(s)
 				}
 			}
-			val, err := grammar.Parse("", in, opts...)
+			var val interface{}
+			var err error
+			if variant%4 == 3 {
+				// the same parser entered through its reader wrapper
+				val, err = grammar.ParseReader("", bytes.NewReader(in), opts...)
+			} else {
+				val, err = grammar.Parse("", in, opts...)
+			}
 			if err != nil {
 				o.Err = err.Error()
 			}
